@@ -1214,6 +1214,38 @@ def suite_routes(ctx, can_run_model):
 
 
 
+def suite_handoff_repeat(ctx, can_run_model):
+    """C01 across the hand-off: the same simulated prefix + ModelChecker::new + exploration, twice in one OS process
+    (fresh hash maps) and in a second OS process, must give identical snapshots (incl. the ids the pending events
+    get), the same order of predicate evaluations and the same results."""
+    rng = random.Random(ctx.seed * 1000003 + 83)
+    n = ctx.scale(60, 3000)
+    raw = [gen_handoff.gen_scenario(rng, "hr%d-%d" % (ctx.seed, j)) for j in range(n)]
+    scs = fill_draws(raw)
+    impl = vlib.run_impl(scs, "hr-impl", env={"ASV_REPEAT": "1"})
+    impl2 = vlib.run_impl(scs, "hr-impl2")
+    ctx.clauses.update(["C01:handoff_in_process_repeat", "C01:handoff_cross_process_repeat"])
+    for sc in scs:
+        sid = sc[1]
+        ctx.evaluations += 1
+        il = impl.get(sid, [])
+        rd = [l for l in il if l.startswith("REPEAT-DIFFERS")]
+        if rd:
+            ctx.monitor_failures.append({"clause": "C01:handoff_in_process_repeat", "detail": rd[0][:400],
+                                         "scenario": vlib.scenario_text(sc), "impl": il[:20], "seed": ctx.seed, "suite": "HANDOFFREPEAT"})
+        d2 = vlib.first_diff(il, impl2.get(sid, []))
+        if d2 is not None:
+            ctx.monitor_failures.append({"clause": "C01:handoff_cross_process_repeat",
+                                         "detail": "two OS processes give different results: %s" % (str(d2)[:400],),
+                                         "scenario": vlib.scenario_text(sc), "impl": il[:20], "seed": ctx.seed, "suite": "HANDOFFREPEAT"})
+        bef = [l for l in il if l.startswith("BEFORE ")]
+        if bef:
+            m = re.search(r" ne=(\d+)", bef[0])
+            if m and int(m.group(1)) >= 2:
+                ctx.count("handoff_repeat_pending_ge2")
+                ctx.nontrivial.add(sc_hash(sc))
+
+
 def suite_mc_rand_repeat(ctx, can_run_model):
     """C01, implementation only: programs that draw ctx.rand() in model checking (the values are a function of the
     state hash; the model does not compute them).  The same exploration by two ModelChecker instances in one OS
@@ -1454,7 +1486,9 @@ def match_known(mf, known):
 
 KNOWN_CLASS = {
     # F10: MC set_timer on a pending timer leaves the old TimerFired event pending: the overridden instance fires
-    "F10_override": lambda mf: mf.get("kind") == "overridden",
+    # (only for programs that really call set_timer on a name that may be pending: a second pending instance in a
+    # program that uses set_timer_once only is NOT this finding)
+    "F10_override": lambda mf: mf.get("kind") == "overridden" and bool(mf.get("feat", {}).get("override")),
     # F11: invariants::state_depth_current_run measures trace length
     "F11_depth_current_run": lambda mf: True,
     # F14: clock-reading programs: equal states at different depths have different futures
@@ -1524,8 +1558,9 @@ SIM_ASSUMPTIONS = [
 
 PROPERTIES = {
     "C01": {
-        "suites": [suite_sim_repeat, suite_mc_repeat, suite_mc_rand_repeat],
-        "rule": "MCRAND (implementation only): explorations of programs that draw ctx.rand() in model checking, by two "
+        "suites": [suite_sim_repeat, suite_mc_repeat, suite_mc_rand_repeat, suite_handoff_repeat],
+        "rule": "HANDOFFREPEAT: hand-off scenarios (as C15) twice in one OS process and in a second one: identical "
+                "snapshots incl. event ids, evaluation order and results. MCRAND (implementation only): explorations of programs that draw ctx.rand() in model checking, by two "
                 "ModelChecker instances in one OS process and by a second OS process, must record the same values. " + SIM_RULE + " Every script is run by the implementation twice in one OS process (fresh hash maps) and "
                 "once more in a second OS process: the three histories must be identical, and equal to the model's. "
                 "Model checking: explorations (single and staged, half of them with a crash in the callback on nodes "
